@@ -149,14 +149,18 @@ def _string_chunk(job):
     return n, bad
 
 
-def strings(R, ctx, tier):
-    rid = "C13.strings"
+def strings(R, ctx, tier, rid="C13.strings", light=False):
+    """`light`: the singles and the structured long forms only (no byte pairs), on every generator — the form other properties
+    (C02: 'the same literal values') reuse under their own rule id"""
+    global _CTX
+    _CTX = ctx
     lib = ctx.lib
     R.rule(rid, "each generator (built with its public constructor, driven through LuaGenerator::write_expression on Expression::String), "
                 "evaluated from its typed tree for every byte string of length <= 1, every pair (any byte, one byte of each class the writer "
                 "distinguishes; thorough: every pair) and the structured long forms around the 20/60 length and 6-newline thresholds with "
                 "`]]`, `]=]`, trailing `]`, leading newline, CR, quotes, invalid UTF-8 and non-ASCII text: the text written is one complete "
-                "literal that an independent reader of Luau's (and, without `\\u{`, Lua 5.1's) string syntax reads back as the same bytes")
+                "literal that an independent reader of Luau's (and, without `\\u{`, Lua 5.1's) string syntax reads back as the same bytes"
+                + (" [light form under this rule id: the singles and the long forms, no byte pairs]" if light else ""))
     gens = generators(ctx)
     if not R.require(rid, "anchor:generators", len(gens) >= 3, "", "LuaGenerator implementations with a usable constructor: %s" % [g[0] for g in gens]):
         return
@@ -167,7 +171,7 @@ def strings(R, ctx, tier):
         fin = trait_fn(lib, G, "into_string")
         if not R.require(rid, "%s|anchor:write_expression" % G.split("::")[-1], we is not None and fin is not None, "", "write_expression / into_string not found"):
             continue
-        values = dom if gi == 0 or tier == "thorough" else short
+        values = short if light else dom if gi == 0 or tier == "thorough" else short
         chunks = [(gi, values[k:k + 400]) for k in range(0, len(values), 400)]
         bad, n = None, 0
         for cn, cbad in pmap(_string_chunk, chunks):
@@ -175,8 +179,8 @@ def strings(R, ctx, tier):
             bad = bad or cbad
         R.ob(rid, "%s|roundtrip" % G.split("::")[-1], bad is None, ctx.where(we),
              "%d byte strings read back exactly" % n if bad is None else "value %r: %s" % (bad[0][:40], bad[1]))
-        R.require(rid, "%s|floor" % G.split("::")[-1], n >= (3000 if gi == 0 or tier == "thorough" else 350), ctx.where(we), "%d byte strings evaluated" % n)
-    R.meta["C13.strings"] = {"generators": [g[0] for g in gens], "strings_per_generator": len(dom)}
+        R.require(rid, "%s|floor" % G.split("::")[-1], n >= (350 if light else 3000 if gi == 0 or tier == "thorough" else 350), ctx.where(we), "%d byte strings evaluated" % n)
+    R.meta[rid] = {"generators": [g[0] for g in gens], "strings_per_generator": len(dom)}
 
 
 def segments(R, ctx, tier):
